@@ -568,13 +568,20 @@ class World(object):
         """An unused open circuit is re-purposed and extended by one hop (circuit_launch_by_extend_info
         -> circuit_extend_to_new_exit).  The purpose change is announced by CIRC_MINOR, which TorState
         does not subscribe to, so nothing is reported until the next c_extend."""
-        circ = self._pick(self._circ_list(lambda x: x.phase == "built" and not x.ever_attached and
-                                          2 <= len(x.plan) < 5 and not x.close_requested), a)
+        cand = self._circ_list(lambda x: x.phase == "built" and not x.ever_attached and
+                               2 <= len(x.plan) < 5 and not x.close_requested)
+        if b % 2 == 0:
+            cand = [x for x in cand if x.purpose in HS_STATES] or cand
+        circ = self._pick(cand, a)
         if circ is None:
             return None
         free = [i for i in range(NREL) if i not in circ.plan]
         circ.plan.append(free[b % len(free)])
-        circ.purpose = ["HS_CLIENT_REND", "HS_CLIENT_INTRO", "HS_SERVICE_REND", "GENERAL", "HS_VANGUARDS"][c % 5]
+        if circ.purpose in HS_STATES:
+            # an onion-service circuit turned into an ordinary one: HS_STATE disappears from its later reports
+            circ.purpose = ["GENERAL", "HS_VANGUARDS", "CONTROLLER"][c % 3]
+        else:
+            circ.purpose = ["HS_CLIENT_REND", "HS_CLIENT_INTRO", "HS_SERVICE_REND", "GENERAL", "HS_VANGUARDS"][c % 5]
         circ.hs_state = HS_STATES[circ.purpose][0] if circ.purpose in HS_STATES else None
         circ.phase = "building"
         return None
